@@ -744,6 +744,7 @@ pub fn run(args: &[String]) {
         "shrink" => shrink_cmd(&args[1..]),
         "models" => models::run(&args[1..]),
         "iters" => itermodels::run(&args[1..]),
+        "verbose" => crate::verboseiter::run(&args[1..]),
         "list" => {
             for c in ep::CLASSES.iter() {
                 println!("{} quick={} thorough={} entry={}", c.name, c.quick, c.thorough, c.entry);
